@@ -368,7 +368,8 @@ func checkC13(c *Ctx) {
 								if len(snippet) > 48 {
 									snippet = snippet[:48]
 								}
-								k := fmt.Sprintf("%s %s prints %s unquoted into a %s: %s", pkgShort(ri.Pkg), fnName, strings.Trim(acc, ".(@"), where, snippet)
+								// the emitter's name is not part of the identity: extracting the statement into a helper does not make it a new finding
+								k := fmt.Sprintf("%s prints %s unquoted into a %s: %s", pkgShort(ri.Pkg), strings.Trim(acc, ".(@"), where, snippet)
 								if unq[k] == nil {
 									unq[k] = &agg{pos: c.P.Pos(l.Pos), example: holeFree(text)}
 								}
@@ -404,7 +405,7 @@ func checkC13(c *Ctx) {
 								if strings.HasSuffix(key, ".GoName") || strings.HasSuffix(key, "FieldGoName") || strings.Contains(key, ".GoName+") || strings.HasSuffix(key, ".GoName}\"") {
 									okSel++
 								} else {
-									k := fmt.Sprintf("%s %s selects a message field spelled by %s", pkgShort(ri.Pkg), fnName, eraseIters(holeFreeKey(key)))
+									k := fmt.Sprintf("%s selects a message field spelled by %s", pkgShort(ri.Pkg), eraseIters(holeFreeKey(key)))
 									if sel[k] == nil {
 										sel[k] = &agg{pos: c.P.Pos(l.Pos), example: holeFree(text)}
 									}
